@@ -210,6 +210,48 @@ def run(rep):
             rep.ob("S3-map-key-derivation", "get_slot_key", body == "sha256((STORAGE_MAP_DOMAIN,key,self.field_id()))", DIR + rel, fl,
                    f"the slot of a map entry must be sha256((STORAGE_MAP_DOMAIN, key, self.field_id())); found `{body}`")
         rep.note(f"{rel}: {n_sites} storage access sites analysed in the default build")
+    # ---- S5: the slice primitives agree on header/content and write the header on every path ---------------------------------
+    rel = "storable_slice.sw"
+    toks = sw.load(DIR + rel)
+    T = [t[1] for t in toks]
+    fs = {}
+    i = 0
+    while i < len(T) - 1:
+        if T[i] == "fn" and toks[i][0] == "id" and toks[i + 1][0] == "id":
+            j = i + 2
+            while j < len(T) and T[j] not in ("{", ";"):
+                if T[j] == "(":
+                    j = sw.match_brace(toks, j, "(", ")")
+                j += 1
+            if j < len(T) and T[j] == "{":
+                fs[T[i + 1]] = (j, sw.match_brace(toks, j), toks[i][2])
+        i += 1
+    for wname in ("write_slice_quads",):
+        if wname not in fs:
+            raise AnalysisError(f"storable_slice.sw: fn {wname} not found")
+        bs, be, fl = fs[wname]
+        body = T[bs:be + 1]
+        txt = "".join(body)
+        # header: write_quads::<u64>(slot, 0, <len>) ; content at sha256(slot)
+        hdr = [k for k in range(len(body) - 6) if body[k] == "write_quads" and "".join(body[k:k + 12]).startswith("write_quads::<u64>(slot,0,")]
+        cont = "__state_store_quad(sha256(slot)," in txt
+        rets = [k for k in range(len(body)) if body[k] == "return"]
+        early = [toks[bs + k][2] for k in rets if not hdr or k < hdr[0]]
+        rep.ob("S5-slice-write-sets-the-length-on-every-path", wname, bool(hdr) and cont and not early, DIR + rel, early[0] if early else fl,
+               f"{wname} must store the content at sha256(slot) and the length at `slot` on every path; " +
+               ("it returns before the length is written: overwriting a stored value with an empty one would leave the old length and content in place" if early
+                else "the header / content writes were not found in their expected form"))
+    rd = fs.get("read_slice_quads")
+    if rd is None:
+        raise AnalysisError("storable_slice.sw: fn read_slice_quads not found")
+    rtxt = "".join(T[rd[0]:rd[1] + 1])
+    rep.ob("S5-slice-reader-agrees-with-writer", "read_slice_quads", "read_quads::<u64>(slot,0)" in rtxt and "__state_load_quad(sha256(slot)," in rtxt, DIR + rel, rd[2],
+           "read_slice_quads must read the length from `slot` (offset 0) and the content from sha256(slot), where write_slice_quads puts them")
+    cl = fs.get("clear_slice_quads")
+    if cl is not None:
+        ctxt = "".join(T[cl[0]:cl[1] + 1])
+        rep.ob("S5-slice-reader-agrees-with-writer", "clear_slice_quads", "__state_clear(slot,1)" in ctxt and "__state_clear(sha256(slot)," in ctxt, DIR + rel, cl[2],
+               "clear_slice_quads must clear the length slot and the content slots at sha256(slot)")
     rep.floor("S1-never-the-parent-slot", 60, n_fns)
     rep.floor("S2-address-from-own-derivation", 50)
     rep.floor("S3-map-slot-from-the-key-helper", 4)
